@@ -34,6 +34,7 @@ POL = ["sweep", "legal", "inject", "random", "masked", "mostly_masked"]
 class Adapter(EnvAdapter):
     name = "Cleaner"
     props = ("C01", "C03", "C04", "C05", "C07", "C08", "C09", "C10", "C11", "C12")
+    gen_heavy = {'r3x4a2_tnone': (40, 300), 'r2x3a1_t2': (40, 300)}
     probe_cap = 64          # 4^3 joint actions of 3 agents are enumerated exhaustively
 
     # ---- configurations -------------------------------------------------------------------
